@@ -27,7 +27,10 @@ def gen_trace(seed, world, tier):
     scale = R.choice([0, 0, 0, 0, -6, 6, -3, 3, -12, 12, -9, -17, 17, -15])
     # reducible Hermitian matrices (diagonal / block diagonal, dominant eigenvector away from
     # e_1): a start vector that is not random in every component never reaches it
-    shape = R.choice(["dense", "dense", "dense", "diag", "blockdiag"]) if n >= 2 else "dense"
+    # ... and dense Hermitian matrices that have a "natural" deterministic vector (ones,
+    # alternating signs, ramp) as eigenvector of a non-dominant eigenvalue (constant row sums:
+    # graph Laplacians, circulants): a start that is not random stays there
+    shape = R.choice(["dense", "dense", "dense", "diag", "blockdiag", "vec"]) if n >= 2 else "dense"
     s = R.randrange(10 ** 6)
     lam = None
     if fam.startswith("herm"):
@@ -54,6 +57,9 @@ def gen_trace(seed, world, tier):
             A = {"gen": "blockdiag", "blocks": [
                 {"gen": "herm", "n": k1, "lam": lam[1:k1 + 1], "seed": s},
                 {"gen": "herm", "n": n - k1, "lam": [lam[0]] + lam[k1 + 1:], "seed": s + 1}]}
+        elif shape == "vec":
+            A = {"gen": "herm_vec", "n": n, "lam": lam, "seed": s, "k": R.randint(1, n - 1),
+                 "vec": R.choice(["ones", "ones", "alt", "ramp"])}
         else:
             A = {"gen": "herm", "n": n, "lam": lam, "seed": s}
     elif fam == "general":
